@@ -82,6 +82,19 @@ def _observe(job):
                     pass
             m.sample(2)
         m.fit(df.to_numpy().copy() if as_array else df.copy())
+        if seed % 2 == 0:
+            # another model is alive in the process: it learnt a table with every second column mirrored after this one was fitted, and was asked first
+            try:
+                other = GaussianMultivariate(**config(cfg, cols))
+                odf = df.copy()
+                for j, c in enumerate(cols):
+                    if j % 2:
+                        odf[c] = -odf[c].to_numpy()[::1] * 1.5 + 4.0
+                other.fit(odf)
+                for f in (other.probability_density, other.cumulative_distribution):
+                    f(odf.iloc[:2].copy())
+            except Exception:
+                pass
         R = m.correlation.to_numpy()
         # query rows: inside the training range, far outside, and training rows
         q = df.iloc[:5].copy().reset_index(drop=True)
